@@ -95,6 +95,8 @@ def random_script(rng, mode, length):
     """One history. Keeps to a few MACs/addresses per history so that re-binding, IP change and
     ageing interact; honours the (documented) usage preconditions of the free-mode actions."""
     macs = rng.sample(CLIENTS, rng.randint(1, 3)) + ["router"]
+    if rng.random() < 0.25:     # a second device whose MAC shares the low four bytes with one in play (other vendor prefix)
+        macs += ["m%d" % (100 + int(x[1:])) for x in macs if x[0] == "m" and int(x[1:]) <= 3][:1]
     lan = rng.sample(LAN, rng.randint(1, 3)) + rng.sample(["hostip", "routerip"], rng.randint(0, 1))
     v6 = rng.sample(LLA, rng.randint(0, 2)) + rng.sample(GUA, rng.randint(0, 2))
     if rng.random() < 0.3:      # the IPv4-mapped IPv6 form of one of the LAN addresses in play
@@ -119,7 +121,10 @@ def random_script(rng, mode, length):
                 out.append({"a": "farp", "src": m, "key": k, "ip": rng.choice(lan), "slot": "dhcp", "name": "noname"})
             elif x < 0.65:
                 c = rng.choice([q for q in macs if q != "router"])
-                out.append({"a": "dhcpack", "mac": c, "ip": rng.choice(lan[:3] + ext), "name": rng.choice(NAMES + ["noname"])})
+                ipd, nmd = rng.choice(lan[:3] + ext), rng.choice(NAMES + ["noname"])
+                if rng.random() < 0.4 and ipd in LAN:      # DISCOVER first: the server records its offer (and the name)
+                    out.append({"a": "offer", "mac": c, "ip": ipd, "name": rng.choice([nmd, nmd, "noname", rng.choice(NAMES)])})
+                out.append({"a": "dhcpack", "mac": c, "ip": ipd, "name": nmd})
             elif x < 0.70:
                 out.append({"a": rng.choice(["capture", "release"]), "mac": m})
             elif x < 0.86:
@@ -253,7 +258,7 @@ def write_script(path, behaviours, ncfg=3, dl=STD):
     return n
 
 
-ARGS = ("a", "src", "key", "ip", "mac", "name", "slot", "d", "kind", "notify", "cfg", "id", "nodrain", "probe", "offline", "purge")
+ARGS = ("a", "src", "key", "ip", "mac", "name", "slot", "d", "kind", "notify", "cfg", "id", "nodrain", "probe", "offline", "purge", "v")
 
 
 def behaviour_at(trace_path, line):
